@@ -293,7 +293,7 @@ def w4_parentheses(task, tier, seed):
     per = k10 / 10.0
     d = int((CPYTHON_MAX_PARENS - (ds[0] - k10)) / per)
     found = None
-    for dd in range(max(1, d - 3), d + 4):
+    for dd in (d, d + 3, d + 10):
         src = mk(dd)
         try:
             env.from_string(src)
@@ -766,28 +766,55 @@ def _recursion_fails(construct, depth, full=False):
     return None
 
 
+def _stack_depth():
+    f, n = sys._getframe(), 0
+    while f is not None:
+        f, n = f.f_back, n + 1
+    return n
+
+
 def recursion_depth(task, tier, seed):
-    """resource clause A5 (F10): for each nesting / chaining construct the smallest depth <= 3000 at which loading the
-    template raises RecursionError under the interpreter's default recursion limit (nothing bounds or converts it)"""
+    """resource clause A5 (F10): for each nesting / chaining construct, nothing bounds the recursion of parser / optimizer /
+    code generator or converts RecursionError.  The frames needed per level are measured with a reduced recursion limit
+    (deep successful loads are slow, failing ones are fast), extrapolated to the default limit and the extrapolated depth
+    (x1.5, doubled until it fails) is confirmed under the default limit."""
     rs = []
-    hi0 = 3000
+    old = sys.getrecursionlimit()
+    budget = 260
     for construct in RECURSION_CONSTRUCTS:
-        nm = f"C01.bounded.recursion.{construct}"
-        if _recursion_fails(construct, hi0) is None:
-            rs.append(Res(nm, "bounded-ok", "native", 0, f"depth {hi0} loads", "bounded"))
-            continue
-        lo, hi = 1, hi0
-        while lo < hi:
-            m = (lo + hi) // 2
-            if _recursion_fails(construct, m):
-                hi = m
+        try:
+            sys.setrecursionlimit(_stack_depth() + budget)
+            lo, hi = 1, 200
+            if not _recursion_fails(construct, hi):
+                small = None
             else:
-                lo = m + 1
-        what = _recursion_fails(construct, lo)
+                while lo < hi:
+                    m = (lo + hi) // 2
+                    if _recursion_fails(construct, m):
+                        hi = m
+                    else:
+                        lo = m + 1
+                small = lo
+        finally:
+            sys.setrecursionlimit(old)
+        if small is None:
+            rs.append(Res(f"C01.bounded.recursion.{construct}", "bounded-ok", "native", 0, f"depth 200 loads with {budget} spare frames", "bounded"))
+            continue
+        est = int(small * max(1.0, (old - _stack_depth()) / float(budget))) + 1
+        d = int(est * 1.5) + 5
+        what = None
+        for _ in range(5):
+            what = _recursion_fails(construct, d)
+            if what:
+                break
+            d *= 2
+        if not what:
+            rs.append(Res(f"C01.bounded.recursion.{construct}", "bounded-ok", "native", 0, f"fails at depth {small} with {budget} frames but depth {d} loads under the default limit", "bounded"))
+            continue
         rs.append(Res("C01.bounded.recursion", "refuted", "native", 0,
-                      f"{construct}: depth {lo} -> {what} (recursion limit {sys.getrecursionlimit()}); e.g. {RECURSION_CONSTRUCTS[construct](3)}", "bounded",
-                      {"construct": construct, "depth": lo, "raises": what}))
-    task.bound_text = f"{len(RECURSION_CONSTRUCTS)} constructs, depth <= {hi0}, default recursion limit"
+                      f"{construct}: depth {d} -> {what} under the default recursion limit {old} (first failure estimated near depth {est}); e.g. {RECURSION_CONSTRUCTS[construct](3)}",
+                      "bounded", {"construct": construct, "depth": d, "raises": what}))
+    task.bound_text = f"{len(RECURSION_CONSTRUCTS)} constructs; frames per level measured with {budget} spare frames, confirmed at 1.5x the extrapolated depth"
     return rs
 
 
@@ -795,7 +822,7 @@ def replay_recursion(w):
     c, d = w.get("construct"), int(w.get("depth", 300))
     if c not in RECURSION_CONSTRUCTS:
         return (False, "unknown construct")
-    for dd in (d + 50, 2 * d, 4 * d):
+    for dd in (d, 2 * d, 4 * d):
         r = _recursion_fails(c, dd)
         if r:
             return (True, f"{c} of depth {dd} -> {r}")
